@@ -37,6 +37,12 @@ var libShapes = []string{
 
 func libArrayCase(r *prng.R) (prog, doc, kind string) {
 	doc = `{"s":"a,b","t":"é😀 x","n":12.5,"mixed":[{"k":1},{},{"k":"a"},{},{"k":2}],"gaps":[{},{"k":"b"},{},{"k":"a"},{"k":true},{}]}`
+	if r.Intn(40) == 0 {
+		// pictures far beyond ordinary sizes: an error or a value, never a hang
+		n := r.Pick("1", "5", "1e308", "1e-300", "-7.5", "0")
+		pic := r.Pick(`$pad("", 309, "0") & "e0"`, `$pad("", 320, "0") & ".0e00"`, `$pad("", 308, "0") & "e0"`, `$pad("", 400, "#") & "0e0"`, `"0." & $pad("", 400, "0") & "e0"`, `$pad("", 350, "0")`, `$pad("", 330, "0") & "%"`, `"0e" & $pad("", 400, "0")`)
+		return "$formatNumber(" + n + ", " + pic + ") ~> $length", doc, "library-built-value:huge-picture"
+	}
 	if r.Intn(12) == 0 {
 		// order-by and $sort over keys of mixed types with gaps between them
 		prog = r.Pick("mixed^(k)", "mixed^(>k)", "mixed^(k, >k)", "mixed.k^($)", "$sort(mixed.k)", "gaps^(k)", "gaps^(<k).k", "$sort(gaps.k)", "mixed^($string(k))", "mixed^(k).k", "(mixed ~> $append(gaps))^(k)",
